@@ -112,7 +112,8 @@ class Cylinder(SampleShape):
         u = sc.cross(sc.vector([0, 0, 1]), self.symmetry_line)
         un = sc.norm(u)
         if un >= 1e-10:
-            u *= sc.asin(un) / un
+            # Angle between the z-axis and the symmetry line, in [0, pi].
+            u *= sc.atan2(y=un, x=sc.dot(sc.vector([0, 0, 1]), self.symmetry_line)) / un
             points = sc.spatial.rotations_from_rotvecs(u) * points
 
         # By default the cylinder quadrature center is at the origin.
